@@ -180,6 +180,9 @@ func (m *Model) applyContainers(o Op, pr *Pred) (string, bool) {
 	if c == nil {
 		return FNil, true
 	}
+	if !c.T.Equal(o.T) {
+		return FPanic, true
+	}
 	if o.M != "ref" {
 		// load<T>: the static type of the loaded value is its dynamic type; it is removed and saved back at the end
 		delete(m.Accts[o.A].Storage, o.P)
